@@ -4,7 +4,7 @@ SPEC = {
     "pkg": "props/c08", "level": "exploration", "bins": ["ts-server"],
     "rule": ("per case two real servers (ptnum-pernode 1 and 4, max-rows-per-segment 8) are fed the same generated data (6 series with/without a second tag, four field "
              "types, small value domain so extremes tie, gaps, late data) in three layout phases (memtable; flushed + late data; after merge/compaction); queries "
-             "from a grammar over the core subset (ladder: raw selections incl. limit/offset -> LIMIT/OFFSET windows over dense series spread over several flushed generations -> aggregates overall / per tag group -> time buckets with fill) run "
+             "from a grammar over the core subset (ladder: raw selections incl. limit/offset -> overwrite_layers (the same cells rewritten in an ordered file, 1-2 out-of-order files and the memtable, queried raw / aggregated / bucketed in both directions) -> LIMIT/OFFSET windows over dense series spread over several flushed generations -> aggregates overall / per tag group -> time buckets with fill) run "
              "under 2-4 generated configurations (server x inner_chunk_size {1,2,3,7,1024} x chunked/chunk_size {1,2,7} x chunk_reader_parallel {1,2,8}). Oracle: "
              "every answer must be admissible for the reference evaluator internal/qref over the last-write-wins model (choices the language leaves open are sets), and "
              "answers with no open choice must be identical across configurations. Non-trivial: >= 2 result rows and (>= 2 series merge into one group or a group has "
@@ -15,6 +15,7 @@ SPEC = {
     "campaigns": [
         {"name": "raw_selections", "run": "^TestRawSelections$", "quick": B(3, 4, 900, shrinktime="60s"), "thorough": B(40, 5, 3400, shrinktime="180s")},
         {"name": "limit_layouts", "run": "^TestLimitLayouts$", "quick": B(4, 4, 900, shrinktime="60s"), "thorough": B(50, 5, 3400, shrinktime="180s")},
+        {"name": "overwrite_layers", "run": "^TestOverwriteLayers$", "quick": B(4, 4, 900, shrinktime="60s"), "thorough": B(50, 5, 3400, shrinktime="180s")},
         {"name": "aggregates", "run": "^TestAggregates$", "quick": B(3, 4, 900, shrinktime="60s"), "thorough": B(40, 5, 3400, shrinktime="180s")},
         {"name": "time_buckets", "run": "^TestTimeBuckets$", "quick": B(3, 4, 900, shrinktime="60s"), "thorough": B(40, 5, 3400, shrinktime="180s")},
     ],
